@@ -21,10 +21,17 @@ static size_t take_hex(unsigned char** out) {
   return n;
 }
 
-/* built-in types by name, so that `t<name>` can denote the real objects */
+/* built-in types by name, so that `t<name>` can denote the real objects.  Each built-in object is
+ * handed out once per case (later occurrences of the name get a fresh Type object of that name):
+ * a Tuple holding the same pointer twice cannot be iterated (finding F3 of C11, not this property). */
 static var builtin_type(const char* name) {
+  static int used[32];
   var ts[] = { Int, Float, String, Type, Tuple, Array, List, Tree, Table, Ref, Box, Range, Slice, File, Cmp, Hash, NULL };
-  for (int i = 0; ts[i]; i++) if (strcmp(c_str(ts[i]), name) == 0) return ts[i];
+  for (int i = 0; ts[i]; i++) if (strcmp(c_str(ts[i]), name) == 0) {
+    if (used[i]) return NULL;
+    used[i] = 1;
+    return ts[i];
+  }
   return NULL;
 }
 
